@@ -4,42 +4,42 @@ from vlib import std, hbuild
 
 PID = "C40"
 META = {
-    "text": "Theorems (Properties_C40.v, closed under the global context) about executable models of Ftp::ParseIpPort, "
-            "Ftp::ParseProtoIpPort, Ftp::UnescapeDoubleQuoted (src/ftp/Parsing.cc) and ftpListParseParts "
-            "(src/clients/FtpGateway.cc). Addresses: for ALL strings, an accepted PORT/PASV string has six converted "
-            "components whose stored values are octets, a port p1*256+p2 in 1..65535 (>= 1024 with ftp_sanitycheck), "
-            "and the address is exactly h1.h2.h3.h4; an accepted EPRT string has protocol 1/2 matching the address "
-            "family, a non-wildcard address, and a port whose MATHEMATICAL value is in 1..65535 (>= 1024 with "
-            "ftp_sanitycheck) -- the property at full strength for the EPRT port after the repair in /repo. The full "
-            "statement for the other components is refuted by witnesses (C40_port_components_in_range_refuted, "
-            "C40_eprt_protocol_in_range_refuted, C40_pasv_forced_host_refuted: huge decimal components are reduced "
-            "modulo 2^32 by sscanf %d / the long->int conversion; with forceIp the host numbers are not examined) and "
-            "proved in the restricted form (_partial: every component below 2^31 in magnitude). Listing: for ALL lines "
-            "and flags the checked-index model never reaches OOB: every tokens[] store is below the declared capacity "
-            "(64-token guard), every tokens[i] read is below n_tokens, every pointer formed from token offsets stays "
-            "within the line including its terminator, every write into tbuf is an snprintf bounded by its size; "
-            "tokens are exactly the blank-free runs at their recorded offsets; a Unix-format name (and link) is a suffix "
-            "part of the line. The model is tied to the code by differential runs against the real functions compiled "
-            "from the working tree under ASan+UBSan (FtpGateway.cc and ftp/Parsing.cc are #included whole into the "
-            "harness unit and linked with the in-tree squid objects), with exactly-sized heap copies of every input.",
+    "text": "Theorems (Properties_C40.v, 11, closed under the global context) about executable models of Ftp::ParseIpPort, "
+            "Ftp::ParseProtoIpPort, Ftp::UnescapeDoubleQuoted (src/ftp/Parsing.cc, after the repairs in /repo) and "
+            "ftpListParseParts (src/clients/FtpGateway.cc). Addresses, at full strength, for ALL strings: an accepted "
+            "PORT/PASV string (with or without forceIp) has six converted numbers whose WRITTEN values (mathematical value "
+            "of the digits, any length) are octets, port p1*256+p2 in 1..65535 (>= 1024 with ftp_sanitycheck), address "
+            "exactly h1.h2.h3.h4 and not 0.0.0.0 (or the forced one); any written number outside 0..255, including "
+            "numbers beyond the long range that %ld clamps, makes the parser refuse; an accepted EPRT string has a "
+            "written protocol number 1 or 2 matching the address family, a non-wildcard address that is the lookup of "
+            "exactly the delimited text, and a port whose mathematical value is in 1..65535 (>= 1024 with "
+            "ftp_sanitycheck). Listing: for ALL lines and flags the checked-index model never reaches OOB: every tokens[] "
+            "store is below the declared capacity (64-token guard), every tokens[i] read is below n_tokens, every pointer "
+            "formed from token offsets stays within the line including its terminator, every write into tbuf is an "
+            "snprintf bounded by its size; tokens are exactly the blank-free runs at their recorded offsets; a Unix-format "
+            "name (and link) is the tail of the line. The model is tied to the code by differential runs against the real "
+            "functions compiled from the working tree under ASan+UBSan (FtpGateway.cc and ftp/Parsing.cc are #included "
+            "whole into the harness unit and linked with the in-tree squid objects), with exactly-sized heap copies of "
+            "every input.",
     "note": "partial: (1) the numeric-host lookup getaddrinfo(AI_NUMERICHOST) behind Ip::Address::operator=(const char*) is "
             "external (a Section variable in the proofs; in the correspondence run its answers are supplied by Python's "
-            "own getaddrinfo for every text the parser can hand to it); for the dotted quad ParseIpPort renders itself the "
-            "lookup is modelled directly (accepted iff every part is 0..255). (2) sscanf %d, strtol, atoi, strtoll, "
-            "snprintf, strtok, strcasecmp, POSIX regexec on the four fixed patterns and ctime(0) are modelled from their "
-            "specification / glibc behaviour and validated by correspondence only. (3) src/servers/FtpServer.cc is tied "
-            "at source level only: gen/gen_ftpsrv.py re-reads handlePortRequest/handleEprtRequest on every run and "
-            "C40_server_handlers_guarded fails if they stop rejecting empty parameters, stop using a fresh Ip::Address, or "
-            "stop returning on a parser refusal (the handlers need a live client connection and are not driven). "
-            "(4) Ip::Address arguments are default-constructed as in FtpServer.cc; a failed lookup leaves a caller's old "
-            "address in place (not modelled). (5) The EPSV reply scanner in src/clients/FtpClient.cc (sscanf %hu, outside "
-            "this property's anchors) is not modelled; by reading it still truncates (|||65616|) to port 80. "
-            "Known findings reproduced on every run: C40-port-component-wraps, C40-eprt-protocol-wraps, "
-            "C40-pasv-forced-host-unchecked. Trusted: Coq kernel, extraction, gen/gen_ftp.cc, gen/gen_ftpsrv.py, "
-            "harness/h_ftp.cc.",
+            "own getaddrinfo for every text the parser can hand to it); for the dotted quad ParseIpPort renders itself "
+            "from four checked octets the lookup is modelled directly (that address). (2) sscanf %ld (stores strtol's "
+            "clamped long), strtol, atoi, strtoll, snprintf, strtok, strcasecmp, POSIX regexec on the four fixed patterns "
+            "and ctime(0) are modelled from their specification / glibc behaviour and validated by correspondence only. "
+            "(3) src/servers/FtpServer.cc is tied at source level only: gen/gen_ftpsrv.py re-reads "
+            "handlePortRequest/handleEprtRequest on every run and C40_server_handlers_guarded fails if they stop rejecting "
+            "empty parameters, stop using a fresh Ip::Address, or stop returning on a parser refusal (the handlers need a "
+            "live client connection and are not driven). (4) Ip::Address arguments are default-constructed as in "
+            "FtpServer.cc; a failed lookup leaves a caller's old address in place (not modelled). (5) The EPSV reply "
+            "scanner in src/clients/FtpClient.cc (sscanf %hu, outside this property's anchors) is not modelled; by reading "
+            "it still truncates (|||65616|) to port 80. (6) ParseProtoIpPort compares the last delimiter with a literal "
+            "'|' (modelled as is). The three former findings (numbers reduced modulo 2^32, unchecked host numbers with "
+            "forceIp, protocol number reduced modulo 2^32) are repaired in /repo and are regression cases in "
+            "corpus/C40/regress.txt. Trusted: Coq kernel, extraction, gen/gen_ftp.cc, gen/gen_ftpsrv.py, harness/h_ftp.cc.",
     "technique": "Coq proof (induction over the scanners with offset invariants, checked-access monad with distinct OOB "
-                 "outcome, lia over saturation/truncation arithmetic, vm_compute witnesses for the refutations) + "
-                 "extracted-model differential correspondence under ASan + independent Python oracle",
+                 "outcome, lia over clamping arithmetic) + extracted-model differential correspondence under ASan + "
+                 "independent Python oracle",
 }
 
 # the in-tree squid objects (everything the squid binary links except main.o and the dlopen module loader);
